@@ -73,10 +73,10 @@ pub enum Shape {
 
 #[derive(Clone, Debug, Default, PartialEq, Serialize, Deserialize)]
 pub struct R {
-    pub min_inclusive: Option<i32>,
-    pub max_inclusive: Option<i32>,
-    pub min_exclusive: Option<i32>,
-    pub max_exclusive: Option<i32>,
+    pub min_inclusive: Option<i64>,
+    pub max_inclusive: Option<i64>,
+    pub min_exclusive: Option<i64>,
+    pub max_exclusive: Option<i64>,
     pub length: Option<usize>,
     pub min_length: Option<usize>,
     pub max_length: Option<usize>,
@@ -123,10 +123,11 @@ impl R {
     }
     pub fn to_real(&self) -> Rc<Restrictions> {
         Rc::new(Restrictions {
-            min_inclusive: self.min_inclusive,
-            max_inclusive: self.max_inclusive,
-            min_exclusive: self.min_exclusive,
-            max_exclusive: self.max_exclusive,
+            // `as _`: whatever integer type the helper's fields have (i64 since the fix of F58)
+            min_inclusive: self.min_inclusive.map(|b| b as _),
+            max_inclusive: self.max_inclusive.map(|b| b as _),
+            min_exclusive: self.min_exclusive.map(|b| b as _),
+            max_exclusive: self.max_exclusive.map(|b| b as _),
             length: self.length,
             min_length: self.min_length,
             max_length: self.max_length,
@@ -471,11 +472,14 @@ fn signature(case: &Case, expected: Verdict) -> String {
 // ---------------------------------------------------------------------------------------------
 // Generators
 
-fn arb_bound() -> impl Strategy<Value = i32> {
+fn arb_bound() -> impl Strategy<Value = i64> {
     prop_oneof![
-        4 => -20i32..=20,
-        2 => any::<i32>(),
-        1 => prop_oneof![Just(i32::MIN), Just(i32::MAX), Just(i32::MIN + 1), Just(i32::MAX - 1), Just(0)],
+        4 => -20i64..=20,
+        2 => any::<i32>().prop_map(i64::from),
+        1 => prop_oneof![Just(i32::MIN as i64), Just(i32::MAX as i64), Just(i32::MIN as i64 + 1), Just(i32::MAX as i64 - 1), Just(0i64)],
+        // bounds beyond 32 bits (ten-digit identifiers, unsignedInt's maximum, 64-bit extremes)
+        2 => any::<i64>(),
+        1 => prop_oneof![Just(i32::MAX as i64 + 1), Just(i32::MIN as i64 - 1), Just(u32::MAX as i64), Just(u32::MAX as i64 + 1), Just(9_999_999_999i64), Just(i64::MAX), Just(i64::MIN), Just(i64::MAX - 1)],
     ]
 }
 
@@ -585,7 +589,7 @@ fn arb_case() -> impl Strategy<Value = Case> {
                     _ => None,
                 });
                 if let (Some(v), Some(r)) = (v, r.as_mut()) {
-                    if let Ok(b) = i32::try_from(v + delta as i128) {
+                    if let Ok(b) = i64::try_from(v + delta as i128) {
                         match (which >> 1) & 3 {
                             0 => r.min_inclusive = Some(b),
                             1 => r.max_inclusive = Some(b),
@@ -632,9 +636,9 @@ impl Run<'_> {
     }
 }
 
-fn opt_range(lo: i32, hi: i32) -> Vec<Option<i32>> {
+fn opt_range(lo: i32, hi: i32) -> Vec<Option<i64>> {
     let mut v = vec![None];
-    v.extend((lo..=hi).map(Some));
+    v.extend((lo..=hi).map(|b| Some(b as i64)));
     v
 }
 
